@@ -250,11 +250,21 @@ class Program:
         self.traits = {}
         self.adts = {}
         self.crates = {}
+        raws = {}
         for f in FACT_FILES:
             p = os.path.join(facts_dir, f + ".json")
             if not os.path.exists(p):
                 continue
-            raw = json.load(open(p))
+            raws[f] = json.load(open(p))
+        # functions that were only renamed are given their reference names back (tdq/renames.py)
+        from . import renames
+        self.renames, self.rename_notes = renames.find_renames(raws)
+        if self.renames:
+            raws = {f: renames.rewrite(raw, self.renames) for f, raw in raws.items()}
+        for f in FACT_FILES:
+            if f not in raws:
+                continue
+            raw = raws[f]
             self.crates[f] = raw
             for b in raw["bodies"]:
                 body = Body(b, f)
